@@ -40,12 +40,27 @@ class Full(Engine):
         new = self.raises[n0:]
         if new:
             pc = z3.simplify(z3.And(pc, z3.Not(z3.Or(*[c for c, _ in new]))))
+        if fn is super and not args:
+            return self._zero_arg_super(fr)
         # exception constructors: only the class matters
         if isinstance(fn, type) and issubclass(fn, BaseException):
             o = Opaque("exc")
             o.exc_classes = [(TRUE, fn)]
             return o
         return self.call(fn, args, kwargs, pc)
+
+    def _zero_arg_super(self, fr):
+        from .values import SuperProxy
+        fn, obj = getattr(fr, "fn", None), getattr(fr, "first", None)
+        if fn is None or obj is None:
+            raise Unsupported("super() outside a method")
+        qn = fn.__qualname__.split(".")
+        owner = fn.__globals__.get(qn[0]) if len(qn) >= 2 else None
+        for part in qn[1:-1]:
+            owner = getattr(owner, part, None)
+        if not isinstance(owner, type):
+            raise Unsupported(f"super(): cannot resolve the class of {fn.__qualname__}")
+        return SuperProxy(owner, obj)
 
     # ------------------------------------------------------------------ dispatch
     def call(self, fn, args, kwargs, pc):
@@ -322,8 +337,27 @@ class Full(Engine):
             return r
         if fn in (min, max):
             vals = list(args)
-            if len(vals) == 1:
-                vals = [x for _, x in self._all_present(vals[0], pc)]
+            if len(vals) == 1 and "key" not in kwargs:
+                items = self.iterate(vals[0], pc)
+                if not all(self.pybool(c) is True for c, _ in items):
+                    # membership is path dependent: fold with the presence conditions
+                    have, res = FALSE, kwargs.get("default", UNDEF)
+                    for c, x in items:
+                        c = self._lb(c)
+                        better = self.to_bool(self.cmp_num(ast.Lt if fn is min else ast.Gt, x, res)) if self.pybool(have) is not False else TRUE
+                        take = z3.simplify(z3.And(c, z3.Or(z3.Not(have), better)))
+                        res = self.ite(take, x, res)
+                        have = z3.simplify(z3.Or(have, c))
+                    if "default" not in kwargs and self.pybool(have) is not True:
+                        self.raises.append((z3.And(pc, z3.Not(have)), ValueError))
+                    return res
+                vals = [x for _, x in items]
+                if not vals:
+                    if "default" in kwargs:
+                        return kwargs["default"]
+                    self.raises.append((pc, ValueError))
+                    return UNDEF
+                kwargs = {k: v for k, v in kwargs.items() if k != "default"}
             if not any(self.is_sym(v) for v in vals) and "key" not in kwargs:
                 return fn(*vals)
             if "key" in kwargs or "default" in kwargs:
@@ -452,6 +486,8 @@ class Full(Engine):
         if isinstance(o, SBytes):
             return bytes in cs
         if isinstance(o, SList):
+            if getattr(o, "is_tuple", False):
+                return tuple in cs
             return list in cs or (collections.deque in cs and o.maxlen is not None)
         if isinstance(o, SDict):
             return (set if o.is_set else dict) in cs
@@ -512,7 +548,9 @@ class Full(Engine):
                 items = list(reversed(items))
             if fn is tuple:
                 if not all(self.pybool(c) is True for c, _ in items):
-                    raise Unsupported("tuple() of guarded list")
+                    t = SList(items)
+                    t.is_tuple = True          # tuple whose membership is path dependent
+                    return t
                 return tuple(x for _, x in items)
             ml = kwargs.get("maxlen", args[1] if len(args) > 1 else None) if fn is collections.deque else None
             return SList(items, maxlen=ml)
@@ -826,6 +864,18 @@ class Full(Engine):
             if self.pybool(z3.simplify(seen)) is not True:
                 self.raises.append((z3.And(pc, z3.Not(seen)), ValueError))
             return None
+        if name == "index" and all(self.pybool(c) is True for c, _ in o.items):
+            hits = [self._lb(self.equal(x, args[0], pc)) for _, x in o.items]
+            anyhit = z3.simplify(z3.Or(*hits)) if hits else FALSE
+            if self.pybool(anyhit) is not True:
+                self.raises.append((z3.And(pc, z3.Not(anyhit)), ValueError))
+            if not hits:
+                return UNDEF
+            res = len(hits) - 1
+            for i in range(len(hits) - 2, -1, -1):
+                pb = self.pybool(hits[i])
+                res = i if pb is True else (res if pb is False else self.ite(hits[i], i, res))
+            return res
         if name == "index" or name == "count" or name == "sort" or name == "insert" or name == "reverse":
             if name == "sort":
                 s = self.sorted_([o], kwargs, pc)
